@@ -1135,6 +1135,26 @@ impl Transaction {
             }
 
             //
+            // the signature above only binds the first input's key. every other
+            // value-carrying input must be owned by that same key, otherwise anybody
+            // could spend anybody's outputs. (Bound slips carry the NFT id in their
+            // public_key field and are validated in the NFT section below.)
+            //
+            let signer: SaitoPublicKey = self.from[0].public_key;
+            for input in self.from.iter() {
+                if input.amount > 0
+                    && input.slip_type != SlipType::Bound
+                    && input.public_key != signer
+                {
+                    error!(
+                        "ERROR 582040: input is not owned by the key that signed the transaction : {:?}",
+                        input.public_key.to_base58()
+                    );
+                    return false;
+                }
+            }
+
+            //
             // validate routing path sigs
             //
             // it strengthens censorship-resistance and anti-MEV properties in the network
